@@ -69,7 +69,8 @@ Emit == status # "run" => PrintT("CASE " \o ToJson([files |-> content, entry |->
 Terminates == <>(status # "run")
 \* the recursion is bounded by the number of files: every file is being loaded at most once (NoDoubleLoad), and between two loads
 \* every file is being included at most once
-StackBounded == Len(stack) <= 1 + Cardinality(Files) * (Cardinality(Files) + 1)
+\* (the host's text, then at most |Files| loads, each of the |Files| + 1 texts with at most |Files| inclusions in progress)
+StackBounded == Len(stack) <= (Cardinality(Files) + 1) * (Cardinality(Files) + 1)
 NoDoubleInclude == \A i, j \in 1..Len(stack) : (i < j /\ ~stack[i].own /\ ~stack[j].own /\ stack[i].f = stack[j].f) => \E k \in (i + 1)..(j - 1) : stack[k].own
 NoDoubleLoad == \A i, j \in 1..Len(stack) : (i # j /\ stack[i].own /\ stack[j].own) => stack[i].f # stack[j].f
 \* nothing becomes visible while an error unwinds, and the files whose load failed are forgotten
